@@ -23,7 +23,7 @@ INFO = dict(
         "(HttpBeaconClient.get_task / send_callback, httpx.request replaced by a team-server peer in the harness): every history of <= 3 "
         "steps over {check-in without task, check-in with task, callback}, plus one POST carrying two callbacks, for 3 configurations "
         "(cookie/base64 + print; parameter/netbios + mask/base64 body; header/base64url + prepend/append) and the 3 key-material "
-        "variants (RSA private key only, AES random bytes, AES+HMAC keys); task data, callback data (0..3 symbolic bytes: every padding "
+        "variants (RSA private key only, AES random bytes, AES+HMAC keys; RSA key together with only one of the two session keys); task data, callback data (0..3 symbolic bytes: every padding "
         "residue), callback ids and counters symbolic; each recorded message is decoded by a FRESH C2Http and must yield exactly the "
         "metadata / task / callback packets sent, in order; one configuration also goes through the raw HTTP wire form and parse_raw_http",
         thorough="histories of <= 4 steps; 5 configurations; raw wire form for the three configurations without symbolic URL parameters",
@@ -153,6 +153,13 @@ def h_session(cfgname, keys, history, raw):
             dec = call(c2.C2Http, dcfg, rsa_private_key=priv)
         elif keys == "rand":
             dec = call(c2.C2Http, dcfg, aes_rand=cl.aes_rand)
+        elif keys == "rsa+aes":
+            # more than sufficient: the RSA private key next to only ONE of the two session keys
+            dec = call(c2.C2Http, dcfg, rsa_private_key=priv, aes_key=cl.aes_key)
+        elif keys == "rsa+hmac":
+            dec = call(c2.C2Http, dcfg, rsa_private_key=priv, hmac_key=cl.hmac_key)
+        elif keys == "rsa+aes+hmac":
+            dec = call(c2.C2Http, dcfg, rsa_private_key=priv, aes_key=cl.aes_key, hmac_key=cl.hmac_key)
         else:
             dec = call(c2.C2Http, dcfg, aes_key=cl.aes_key, hmac_key=cl.hmac_key)
         wire = []  # (kind, message object or raw bytes)
@@ -201,7 +208,7 @@ def h_session(cfgname, keys, history, raw):
                                   data=V.unwrap(tdata) if not is_native() else V.to_native(tdata))
                         pending["task"] = tp.dumps() if is_native() else call(I.getattr(tp, "dumps"))
                     got_task = call(I.getattr(cl, "get_task"))
-                    if keys == "rsa":
+                    if keys.startswith("rsa"):
                         expected.append(("metadata", cl.metadata))
                     if step == "T":
                         expected.append(("task", (1700000000 + k, 27 + k, tdata)))
@@ -235,8 +242,12 @@ def h_session(cfgname, keys, history, raw):
         got = []
         for kind, msg, rawmsg in wire:
             src = rawmsg if rawmsg is not None else msg
-            for pkt in list(call(I.getattr(dec, "iter_recover_http"), src) if not is_native() else dec.iter_recover_http(src)):
-                got.append(pkt)
+            try:
+                for pkt in list(call(I.getattr(dec, "iter_recover_http"), src) if not is_native() else dec.iter_recover_http(src)):
+                    got.append(pkt)
+            except Exception as e:  # noqa: BLE001 — an exception while decoding the library's own traffic is a failed obligation
+                ctx.prove(False, "decoding a message of the session raises %s: %s" % (type(e).__name__, str(e)[:80]))
+                return
         ctx.prove(len(got) == len(expected), "decoder yields %d packets for history %s (got %d)" % (len(expected), "".join(history), len(got)))
         for g, (kind, want) in zip(got, expected):
             if kind == "metadata":
@@ -271,8 +282,12 @@ def instances(tier):
     if not q:
         hist += [h for h in itertools.product("NTC", repeat=4) if h[0] in "NT" and "C" in h][:20]
     for cfgname in (("cookie", "netbios", "wrapped", "sameverb", "slash") if q else tuple(CONFIGS)):
-        for keys in ("rsa", "rand", "aes"):
+        for keys in ("rsa", "rand", "aes", "rsa+aes", "rsa+hmac", "rsa+aes+hmac"):
             for h in hist:
+                if "+" in keys and (cfgname not in ("cookie", "netbios") or h not in ((("T", "C"),) if q else (("T", "C"), ("N", "T", "C"), ("N", "CC")))):
+                    continue
+                if q and keys == "rsa+aes+hmac":
+                    continue
                 if q and cfgname != "cookie" and h not in (("T", "C"), ("N", "T", "C"), ("N", "CC")):
                     continue
                 if q and cfgname in ("sameverb", "slash") and keys != "rsa":
